@@ -82,6 +82,9 @@ def handout_table():
                 rows.append(('entities.by_handle.state', cname, len(sharing.sharing_matrix(ent.state, table_obj))))
                 d_tab = m.descriptions.handle.get_one(h)
                 rows.append(('entities.by_handle.descriptor', type(d_tab).__name__, len(sharing.sharing_matrix(ent.descriptor, d_tab))))
+                ent.update()          # a refreshed entity is as private as a fresh one
+                rows.append(('entity.update.state', cname, len(sharing.sharing_matrix(ent.state, m.states.descriptor_handle.get_one(h)))
+                             + len(sharing.sharing_matrix(ent.descriptor, d_tab))))
                 try:
                     with m.descriptor_transaction() as mgr:
                         d2 = mgr.get_descriptor(h)
@@ -98,6 +101,23 @@ def handout_table():
                 tab = m.context_states.handle.get_one(c.Handle)
                 rows.append(('get_context_state_after_commit', type(c).__name__, len(sharing.sharing_matrix(cs, tab))))
                 rows.append(('context_result_vs_table', type(c).__name__, len(sharing.sharing_matrix(m.transaction.ctxt_updates[0], tab))))
+                # the entity getters for multi-state entities, and an entity refreshed with update()
+                d_tab = m.descriptions.handle.get_one(tab.DescriptorHandle)
+                routes = {'entities.by_handle.states': lambda: m.entities.by_handle(tab.DescriptorHandle),
+                          'entities.by_node_type.states': lambda: next(e for e in m.entities.by_node_type(d_tab.NODETYPE) if e.handle == d_tab.Handle),
+                          'entities.by_parent_handle.states': lambda: next(e for e in m.entities.by_parent_handle(d_tab.parent_handle) if e.handle == d_tab.Handle),
+                          'entities.items.states': lambda: next(e for h_, e in m.entities.items() if h_ == d_tab.Handle)}
+                for rname, get in routes.items():
+                    e = get()
+                    rows.append((rname, type(c).__name__, len(sharing.sharing_matrix(e.states[tab.Handle], tab))
+                                 + len(sharing.sharing_matrix(e.descriptor, d_tab))))
+                e = m.entities.by_handle(tab.DescriptorHandle)
+                with m.context_state_transaction() as mgr:
+                    w.mutate_state(mgr.get_context_state(c.Handle), 8)
+                tab = m.context_states.handle.get_one(c.Handle)
+                e.update()
+                rows.append(('entity.update.states', type(c).__name__, len(sharing.sharing_matrix(e.states[tab.Handle], tab))
+                             + len(sharing.sharing_matrix(e.descriptor, m.descriptions.handle.get_one(tab.DescriptorHandle)))))
         finally:
             w.close()
     # one row per (route, class): the maximum over the MDIB files
@@ -160,6 +180,8 @@ class C03Hook:
             return  # descriptor without state: the entity getter has nothing to hand out
         if ent is None:
             return
+        if r.random() < 0.5:
+            ent.update()      # a refreshed entity is as private as a fresh one
         w.mutate_descr(ent.descriptor, r.randrange(1000))
         tx.deep_scribble(ent.descriptor)
         for st in ([ent.state] if not ent.is_multi_state else list(ent.states.values())):
